@@ -198,6 +198,26 @@ fn roundtrip<C: Suite>(n: u16, t: u16, idkind: IdKind, seed: &str) -> Outcome {
             }
         }
     }
+    // large containers: 300 participants / commitments (length varints above 127 and 255)
+    if (n, t) == (2, 2) && idkind == IdKind::Seq {
+        let big = make_group::<C>(KeySrc::Dealer, if C::NAME == "ed448" { 140 } else { 300 }, 2, IdKind::Seq, "c12big");
+        if let Ok(big) = big {
+            o.eval(true);
+            let pk = &big.pkp;
+            let a = pk.serialize().ok().and_then(|b| fc::keys::PublicKeyPackage::<C>::deserialize(&b).ok()).as_ref() == Some(pk);
+            let b = serde_json::to_string(pk).ok().and_then(|j| serde_json::from_str::<fc::keys::PublicKeyPackage<C>>(&j).ok()).as_ref() == Some(pk);
+            let s: Vec<_> = big.ids.iter().skip(100).take(if C::NAME == "ed448" { 30 } else { 150 }).copied().collect();
+            let (_, comms) = commit_all::<C>(&big.kps, &s, "c12big");
+            let pkg = fc::SigningPackage::<C>::new(comms, &message(10));
+            let c2 = pkg.serialize().ok().and_then(|b| fc::SigningPackage::<C>::deserialize(&b).ok()).as_ref() == Some(&pkg);
+            let d = serde_json::to_string(&pkg).ok().and_then(|j| serde_json::from_str::<fc::SigningPackage<C>>(&j).ok()).as_ref() == Some(&pkg);
+            if !(a && b && c2 && d) {
+                o.fail(format!("{tag}/roundtrip/large-containers"), format!("PublicKeyPackage bin={a} json={b}; SigningPackage bin={c2} json={d}"));
+            } else {
+                o.count("roundtrips_ok", 1);
+            }
+        }
+    }
     // pre-3.0 public key package: binary form is the new form minus the trailing option
     if let (Ok(newb), Ok(oldb)) = (
         m.grp.pkp.serialize(),
